@@ -20,3 +20,5 @@ open JetVerif.Props.C02L
 #print axioms parseSource_error_names_a_source_line
 #print axioms every_state_function_is_safe
 #print axioms parseSource_never_crashes
+#print axioms lexer_terminates
+#print axioms every_step_lowers_the_potential
